@@ -369,7 +369,7 @@ def run(chk):
                 'cubic uniform, r blocks with start 0 and > 0) + one parallel_gradient on random data compared entry-wise with the ℚ model, '
                 'plus 5 further calls for the identities; exact family: dyadic dz, iota=0; generic: random doubles, iota != 0; '
                 'distinct by (family, order, nz, nq, spline, sub-seed)')
-    chk.proof_side(build=not getattr(chk, 'no_build', False))
+    chk.proof_side(build=not getattr(chk, 'no_build', False), extra_props=('C13Extra',))
     drv = common.LeanDriver('C10.lean')
     stats = {'worst': 0.0, 'moment': 0.0, 'mech_disagree': 0}
     try:
